@@ -81,3 +81,9 @@ func init() {
 		Quick:    tierCfg{Shards: 16, Checks: 250, Procs: mixedProcs, TimeoutS: 900, ReplayRepeat: 20},
 		Thorough: tierCfg{Shards: 16, Checks: 6000, Procs: mixedProcs, TimeoutS: 5400, ReplayRepeat: 100}}
 }
+
+func init() {
+	specs["C06"] = propSpec{Level: "exploration",
+		Quick:    tierCfg{Shards: 16, Checks: 150, Procs: mixedProcs, TimeoutS: 900, ReplayRepeat: 20},
+		Thorough: tierCfg{Shards: 16, Checks: 4000, Procs: mixedProcs, TimeoutS: 5400, ReplayRepeat: 100}}
+}
